@@ -72,6 +72,7 @@ def cases(draw, exhaustive=False):
             st.tuples(st.just("remove"), st.lists(st.integers(0, 5), min_size=1, max_size=2, unique=True)),
             st.tuples(st.just("rename"), st.lists(st.tuples(st.integers(0, 5), st.integers(0, 7)), min_size=1, max_size=2, unique_by=lambda t: t[0])))),
         "exhaustive": exhaustive,
+        "copy_mid": None if exhaustive else draw(st.sampled_from([None, None, "copy", "pickle"])),
         # pure functions of the model's objects called before the knock-outs (copies, reaction arithmetic, pickles, text
         # forms): documented to leave their operands alone, so nothing below may depend on them (since seeded change C07-7)
         "harmless": [] if exhaustive else draw(st.one_of(st.just([]), st.just([]), st.lists(
@@ -236,6 +237,14 @@ def run_order(case, order, ctx, classes):
     try:
         if route == "gene":
             for gid in order:
+                # outside a context the knock-outs may go on in a copy / an unpickled pickle of the model taken half way:
+                # the copy carries the knock-out state (since seeded change C07-9)
+                if cm is None and case.get("copy_mid") and order and gid == order[len(order) // 2] and knocked:
+                    import pickle
+
+                    model = model.copy() if case["copy_mid"] == "copy" else pickle.loads(pickle.dumps(model))
+                    verify_state(model, spec, knocked, None, f"after-{case['copy_mid']}")
+                    classes.add("~continued-on-a-copy")
                 model.genes.get_by_id(gid).knock_out()
                 knocked.append(gid)
                 verify_state(model, spec, knocked, None, "gene.knock_out")
